@@ -15,6 +15,7 @@ type modelOut struct {
 	V     *V
 	Err   string
 	Guard bool
+	Fits  bool
 }
 
 type modelAns struct {
@@ -62,11 +63,11 @@ func parseModel(ans string) (m modelAns) {
 		return
 	}
 	for _, o := range e.list[3:] {
-		if !o.isL || len(o.list) != 2 {
+		if !o.isL || len(o.list) != 3 {
 			m.Bad = "bad output entry"
 			return
 		}
-		mo := modelOut{Guard: o.list[1].atom == "1"}
+		mo := modelOut{Guard: o.list[1].atom == "1", Fits: o.list[2].atom == "1"}
 		x := o.list[0]
 		switch {
 		case !x.isL:
@@ -202,6 +203,14 @@ func compareModel(c *Ctx, cs Case, runs []caseRun, fused *T, m modelAns) {
 					c.Stat("guard:fails")
 				}
 				c.Stat("model-out:" + mo.Kind + mo.Err)
+				if mo.Fits {
+					c.Stat("fits:holds")
+				} else {
+					c.Stat("fits:fails")
+				}
+				if mo.Fits && !mo.Guard {
+					fail("C20:model:fits-without-guard", fmt.Sprintf("output %d: fits holds but the plan-level guard does not (contradicts fits_gives_good_plan)", i))
+				}
 			}
 			switch mo.Kind {
 			case "v":
